@@ -1,4 +1,5 @@
 """contracts for ecdsa/util.py: integer <-> bytes helpers and signature codecs (C12, C13, part of C10)"""
+import z3
 from pyvc.contract import contract, lemma, Int, Bytes, Bool, Const, REGISTRY as _R, LEMMAS
 from pyvc.sym import And_, Or_, Not_, Implies_, If_, blen, at, cat, slc, unit, beq, be, eq, bytelen, nbe, imin
 from pyvc.bounded import Recipe
@@ -227,7 +228,7 @@ _R["ecdsa.util.sigdecode_der"].domain = _sigder_domain
 
 # ---- C17: randrange ---------------------------------------------------------------------------------------------
 from pyvc.interp import SCallable
-from pyvc.sym import bitlen, shr, imax, SBytes, T
+from pyvc.sym import bitlen, shr, imax, SBytes, T, Iff_
 import z3 as _z3
 
 
@@ -262,6 +263,39 @@ def _(c):
         return And_(eq(k, u256), eq(result, shr(be(chunk), 8 * u256 - u2) + 1), *[eq(kk, u256) for kk, _ in ex.draws])
     c.ensures(last_draw, "candidate-is-top-bits-of-last-chunk-plus-one")
     c.ensures(lambda ex: len(ex.draws) == 1, "one-draw-per-iteration")
+
+    def preimage_interval(ex, order, result, part):
+        """uniformity skeleton: for EVERY t, the chunks that yield result - 1 == t are exactly those whose big-endian value
+        lies in the interval [t * 2^w, (t + 1) * 2^w) of 2^w consecutive integers, and for 0 <= t < 2^upper_2 that interval
+        lies inside the chunk space [0, 2^(8 * upper_256)): all candidates have the same number of pre-images"""
+        if not ex.draws:
+            return False
+        u2 = imax(bitlen(order - 2), 1)
+        u256 = u2 // 8 + 1
+        w = ex.name_int(8 * u256 - u2, "w")
+        k, chunk = ex.draws[-1]
+        t = ex.fresh_int("t")
+        pw, pu = ex.mk_pow2(w), ex.mk_pow2(ex.name_int(u2, "u2"))
+        ex.assume(w >= 0)
+        # 2^w * 2^upper_2 == 2^(8 * upper_256): the defining law of pow2, instantiated
+        ex.pc.append(T(ex.mk_pow2(ex.name_int(8 * u256, "cb"))) == T(pw) * T(pu))
+        ex.pc.append(z3.And(T(pw) >= 1, T(pu) >= 1))
+        v = ex.name_int(be(chunk), "chunkvalue")
+        cb = ex.mk_pow2(ex.name_int(8 * u256, "cb"))
+        # result - 1 is the quotient of the chunk value by 2^w (contract clause above, shr is floor division by pow2)
+        ex.pc.append(T(shr(v, w)) == T(v) / T(pw))
+        # the defining property of floor division by a positive number, instantiated for q = v div 2^w
+        qd = T(v) / T(pw)
+        ex.pc.append(z3.And(qd * T(pw) <= T(v), T(v) < (qd + 1) * T(pw)))
+        # clause `candidate-is-top-bits-of-last-chunk-plus-one` gives the antecedent (v, w name be(chunk), 8*upper_256 - upper_2)
+        parts = [Implies_(eq(result, shr(v, w) + 1), Iff_(eq(result - 1, t), And_(t * pw <= v, v < (t + 1) * pw))),
+                 Implies_(And_(0 <= t, t < pu), And_(0 <= t * pw, (t + 1) * pw <= cb)),
+                 And_(v >= 0, v < cb)]
+        return parts[part]
+    c.theories = {"shift"}
+    c.ensures(lambda ex, order, result: preimage_interval(ex, order, result, 0), "candidate-t-iff-chunk-in-the-t-th-interval-of-length-2^w")
+    c.ensures(lambda ex, order, result: preimage_interval(ex, order, result, 1), "every-interval-lies-inside-the-chunk-space")
+    c.ensures(lambda ex, order, result: preimage_interval(ex, order, result, 2), "chunk-space-is-2^(8*upper_256)")
 
 
 def _randrange_field_apply(ex, F, vals, line):
@@ -370,3 +404,61 @@ def randrange_histogram(tier, seed):
 
 for _q in ['ecdsa.util.randrange', 'ecdsa.util.randrange_from_seed__overshoot_modulo', 'ecdsa.util.randrange_from_seed__trytryagain']:
     _R[_q].theories = {"shift"}
+
+
+def seed_helpers_bounded(tier, seed):
+    """the byte-seed derivation helpers and the stream replay of randrange on the real code: total, deterministic, in
+    range, for small orders from 2 upwards, structured orders and the curve orders; randrange replays a recorded stream
+    with many rejected candidates against an independent first-in-range model"""
+    import ecdsa.util as U
+    import ecdsa.curves as cv
+    found = {}
+    n_cases = 0
+    orders = list(range(2, 70 if tier == "quick" else 600)) + [2 ** k + d for k in (7, 8, 9, 15, 16, 17, 31, 32, 33, 64, 127, 128, 255, 256) for d in (-1, 0, 1, 2)] + [c.order for c in cv.curves]
+    seeds = [b"", b"\x00", b"seed-0", b"\xff" * 40]
+    for order in orders:
+        for sd in seeds[: (2 if tier == "quick" and order > 70 else 4)]:
+            for fn in (U.randrange_from_seed__trytryagain, U.randrange_from_seed__overshoot_modulo):
+                n_cases += 1
+                name = "util.%s#in-range" % fn.__name__
+                try:
+                    a, b = fn(sd, order), fn(sd, order)
+                    if not (isinstance(a, int) and 1 <= a <= order - 1) or a != b:
+                        found.setdefault(name, (dict(seed=sd, order=order), "returned %r then %r" % (a, b)))
+                except Exception as e:
+                    found.setdefault("util.%s#no-escape(%s)" % (fn.__name__, type(e).__name__), (dict(seed=sd, order=order), "raised %s: %s" % (type(e).__name__, e)))
+        n_cases += 1
+        try:
+            bits, by, extra = U.bits_and_bytes(order)
+            if not (bits >= 1 and 2 ** bits >= order - 1 and by == bits // 8 and extra == bits % 8):
+                found.setdefault("util.bits_and_bytes#enough-bits", (dict(order=order), "returned %r" % ((bits, by, extra),)))
+        except Exception as e:
+            found.setdefault("util.bits_and_bytes#no-escape(%s)" % type(e).__name__, (dict(order=order), "raised %s: %s" % (type(e).__name__, e)))
+    # randrange replays a stream: the value is the first in-range candidate, whatever the number of rejected ones before it
+    for order in [c.order for c in cv.curves[:4]] + [255, 256, 257, 3, 2]:
+        u2 = (order - 2).bit_length() or 1
+        u256 = u2 // 8 + 1
+        top = (1 << (8 * u256)) - 1                       # all-ones chunk: candidate 2^u2, rejected unless order > 2^u2 (never)
+        good = (max(order - 2, 0) // 2) << (8 * u256 - u2)
+        top_rejected = (top >> (8 * u256 - u2)) + 1 >= order       # the all-ones chunk is accepted when order - 1 == 2^upper_2
+        for rejects in (0, 1, 2, 127, 128, 129, 300) if tier == "quick" else (0, 1, 2, 3, 64, 127, 128, 129, 255, 256, 257, 1000):
+            if rejects and not top_rejected:
+                continue
+            chunks = [top.to_bytes(u256, "big")] * rejects + [good.to_bytes(u256, "big")]
+            it = iter(chunks)
+            asked = []
+
+            def ent(k, it=it, asked=asked):
+                asked.append(k)
+                return next(it)
+            n_cases += 1
+            expected = (good >> (8 * u256 - u2)) + 1
+            try:
+                v = U.randrange(order, ent)
+                ok = v == expected and len(asked) == rejects + 1 and all(a == u256 for a in asked)
+                obs = "returned %r after %d draws, expected %r after %d" % (v, len(asked), expected, rejects + 1)
+            except Exception as e:
+                ok, obs = False, "raised %s: %s" % (type(e).__name__, e)
+            if not ok:
+                found.setdefault("util.randrange#replays-the-stream-first-in-range-candidate", (dict(order=order, rejected_candidates_before=rejects), obs))
+    return n_cases, found, [dict(orders=len(orders))]
